@@ -189,6 +189,8 @@ func c19Floor(tier string) []*C19Sc {
 type chainModel struct {
 	stages []StageSc
 	trace  []string
+	// echoCCV: the core echoes the correlation value of the message it is handed in its response header (server message chain)
+	echoCCV bool
 	// panicIn: when not empty the core panics; the value is the request name the panic message mentions
 	panicIn string
 }
@@ -218,6 +220,9 @@ func (m *chainModel) run(i int, ctxMark, msgMark string) (string, bool) {
 		m.trace = append(m.trace, fmt.Sprintf("core ctx=%s msg=%s", ctxMark, msgMark))
 		if m.panicIn != "" {
 			return "failed:panic(string) in " + m.panicIn + msgMark, false // a failed item, not an error
+		}
+		if m.echoCCV && msgMark != "" {
+			return "core:" + msgMark + "#ccv" + msgMark[strings.LastIndexByte(msgMark, '~'):], false
 		}
 		return "core:" + msgMark, false
 	}
@@ -334,6 +339,9 @@ func withMsgMark(tok, mark string) string {
 
 func cloneReqWithMark(msg *kmip.RequestMessage, mark string) *kmip.RequestMessage {
 	cp := *msg
+	// the replacement differs in its header too: the executor answers in terms of the message it is handed
+	// (the correlation value is echoed in the response header)
+	cp.Header.ClientCorrelationValue = "ccv" + mark
 	cp.BatchItem = make([]kmip.RequestBatchItem, len(msg.BatchItem))
 	for i, bi := range msg.BatchItem {
 		cp.BatchItem[i] = bi
@@ -366,6 +374,9 @@ func respIdentity(resp *kmip.ResponseMessage) string {
 		}
 		if p, ok := bi.ResponsePayload.(*payloads.ActivateResponsePayload); ok {
 			_, mm := markerOfToken(p.UniqueIdentifier)
+			if resp.Header.ClientCorrelationValue != "" {
+				return "core:" + mm + "#" + resp.Header.ClientCorrelationValue
+			}
 			return "core:" + mm
 		}
 		if bi.ResultStatus != kmip.ResultStatusSuccess {
@@ -772,6 +783,7 @@ func execC19(x *X, scAny any) {
 		if sc.CorePanic {
 			m.panicIn = name
 		}
+		m.echoCCV = sc.Driver == "server-msg"
 		wantRes, wantErr := m.run(0, "", "")
 		want := m.trace
 		got := cr.traces[name]
